@@ -136,7 +136,9 @@ def main(argv=None):
         confirmed = None
         try:
             if hasattr(mod, "replay"):
-                rr = mod.replay(uname, o)
+                import contextlib, io
+                with contextlib.redirect_stderr(io.StringIO()):      # progress bars of real solver runs
+                    rr = mod.replay(uname, o)
                 rep["replay"] = rr
                 confirmed = bool(rr and rr.get("confirmed"))
         except Exception as e:  # replay harness failure is not a verdict
@@ -160,7 +162,9 @@ def main(argv=None):
     extra = {}
     if tier == "thorough" and not crashes and hasattr(mod, "thorough"):
         try:
-            extra = mod.thorough(seed=seed) or {}
+            import contextlib, io
+            with contextlib.redirect_stderr(io.StringIO()):
+                extra = mod.thorough(seed=seed) or {}
         except Exception as e:
             import traceback
             crashes.append(("thorough", repr(e), traceback.format_exc()[-2000:]))
